@@ -22,8 +22,8 @@ E1 = {
         'thorough': ['encstep::c07_enc_step', 'encstep::c07_enc_init', 'encstep::c07_enc_end', 'encstep::c07_buf_4_20', 'encstep::c07_buf_4_24', 'encstep::c07_buf_5_27'],
     },
     'C08': {
-        'quick': [D + 'c08_matcher4'],
-        'thorough': [D + 'c08_matcher4'],
+        'quick': [D + 'c08_matcher4', D + 'c17_step4_t0', D + 'c17_step4_t3', D + 'c17_step4_t4', 'reader::c11_wb4'],
+        'thorough': [D + 'c08_matcher4', D + 'c17_step4_t0', D + 'c17_step4_t3', D + 'c17_step4_t4', 'reader::c11_wb4'],
     },
     'C11': {
         'quick': ['reader::c11_wb4', 'reader::c11_err4', 'reader::c11_eof4'],
@@ -38,6 +38,9 @@ E1 = {
     'C15': {
         'quick': ['reader::' + h for h in tags('c15_read4')],
     },
+    'C16': {
+        'quick': [D + 'c14_step4_t1', D + 'c14_step4_t2', D + 'c14_step4_t3'],
+    },
     'C17': {
         'quick': [D + h for h in tags('c17_step4')] + [D + 'fin_reset4', 'reader::c11_wb4', 'reader::c11_err4', 'reader::c11_eof4'],
     },
@@ -50,7 +53,7 @@ E1 = {
 # per-harness description of what is symbolic and what bounds it (goes into the evidence file)
 # every STEP lemma assumes INV; its preservation (c05_step4_t*) is therefore part of each STEP-based property's own check
 INV_LEMMAS = [D + h for h in tags('c05_step4')]
-for _p in ('C01', 'C02', 'C08', 'C11', 'C14', 'C15', 'C17'):
+for _p in ('C01', 'C02', 'C08', 'C11', 'C14', 'C15', 'C16', 'C17'):
     for _t in list(E1[_p]):
         E1[_p][_t] = E1[_p][_t] + [h for h in INV_LEMMAS if h not in E1[_p][_t]]
 
@@ -190,6 +193,10 @@ def e2_checks(pid, tier, seed):
             runs += [('runs_12', R * 5 + S(1) + R * 6), ('runs_s7s', S(2) + R * 7 + S(1))]
         for nm, cells in runs:
             out.append(spec('encode_' + nm, 'chk_encode', cells, 'payload of %d bytes: concrete runs of 0x1b with %d symbolic bytes inside/around them (several inserted escapes per run)' % (len(cells), sum(1 for c in cells if c == 'S')), must_cover=[7]))
+        # runs of 0x1b straddling offsets 32 / 64 (chunked copies)
+        for off in ((29, 61) if q else (28, 29, 30, 31, 32, 60, 61, 62, 63, 125)):
+            cells = [0x55] * off + S(4) + [0x55] * 5
+            out.append(spec('encode_chunk_%d' % off, 'chk_encode', cells, 'payload of %d bytes, concrete except 4 symbolic bytes at offsets %d..%d (a run of four 0x1b there needs an inserted escape)' % (len(cells), off, off + 3), must_cover=[7]))
         for L in ((256, 259) if q else (255, 256, 257, 259, 1024)):
             inp = [0x55] * L
             inp[L - 1] = 'S'; inp[L - 2] = 'S'
@@ -208,7 +215,10 @@ def e2_checks(pid, tier, seed):
                 if variant and glen not in (0, 2, 3) and q: continue
                 out.append(spec('resync_v%d_g%d' % (variant, glen), 'chk_resync', [variant, glen] + S(glen) + S(2), 'decoder history %d, %d symbolic noise bytes (assumed not to contain the start sequence), frame with 2 symbolic payload bytes' % (variant, glen), must_cover=[8]))
         for cut in range(8, 13):
-            out.append(spec('cut_%d' % cut, 'chk_cut', [cut] + S(2) + S(2), 'frame of a symbolic 2-byte payload cut after %d bytes (assumed not inside a 0x1b run / escape), then a frame with 2 symbolic payload bytes' % cut))
+            out.append(spec('cut_%d' % cut, 'chk_cut', [cut, 2] + S(2) + S(2), 'frame of a symbolic 2-byte payload cut after %d bytes (assumed not inside a 0x1b run / escape), then a frame with 2 symbolic payload bytes' % cut))
+        # cut-off part containing an escaped 1b1b1b1b (wire length != decoded length)
+        for cut in ((16, 17, 18) if q else (16, 17, 18, 19, 20)):
+            out.append(spec('cut_esc_%d' % cut, 'chk_cut', [cut, 6, 0x1b, 0x1b, 0x1b, 0x1b] + S(2) + S(2), 'frame of payload 1b1b1b1b + 2 symbolic bytes cut after %d bytes (after the inserted escape), then a frame with 2 symbolic payload bytes' % cut))
     elif pid == 'C14':
         K = 5 if q else 7
         for variant in range(6):
@@ -219,6 +229,12 @@ def e2_checks(pid, tier, seed):
         for L in ((7, 8, 254, 255, 256, 300) if q else (1, 6, 7, 8, 9, 127, 254, 255, 256, 257, 300, 512, 70000)):
             out.append(spec('c12_tlf_long_list_%d' % L, 'chk_parse_c12', [0xF0] + [0x80] * L + [('nib', 0x0)] + [0x01] + tail, 'close message whose outer list TLF is continued over %d zero-nibble bytes (last nibble and checksum symbolic): both parsers vs the reference reader' % L, max_steps=30000000))
             out.append(spec('c12_tlf_long_str_%d' % L, 'chk_parse_c12', [0x76, 0x80] + [0x80] * L + [('nib', 0x0)] + S(2) + tail, 'transaction-id TLF continued over %d zero-nibble bytes, last nibble symbolic' % L, max_steps=30000000))
+        # first length nibble symbolic as well (values that do / do not fit 32 bits, 64-bit accumulators that wrap after 16 nibbles)
+        for L in ((6, 7, 8, 15, 16, 17) if q else (5, 6, 7, 8, 9, 14, 15, 16, 17, 18, 31, 32, 33, 300)):
+            out.append(spec('c12_tlf_big_list_%d' % L, 'chk_parse_c12', [('nib', 0xF)] + [0x80] * L + [('nib', 0x0)] + [0x01] + tail, 'outer list TLF of %d bytes: first and last length nibble symbolic, zero nibbles between' % (L + 2), max_steps=30000000))
+            out.append(spec('c12_tlf_big_str_%d' % L, 'chk_parse_c12', [0x76, ('nib', 0x8)] + [0x80] * L + [('nib', 0x0)] + S(2) + tail, 'transaction-id TLF of %d bytes: first and last length nibble symbolic' % (L + 2), max_steps=30000000))
+        # type-length bytes of time / value / status fields replaced by a symbolic byte (checksums recomputed): width and type dispatch
+        out += file_specs('chk_mut_c12', 'c12', tier, seed, [1], names=['open_bare_time', 'open_short_time', 'list_opts', 'list_vals_misc'] if q else ['open_bare_time', 'open_short_time', 'open_full', 'list_opts', 'list_vals_misc', 'list_vals_int', 'list_vals_uint', 'list_status'])
         # fully symbolic TLFs of up to 9 bytes at the transaction-id position, seen through both parsers
         for n in ((2, 4) if q else (1, 2, 3, 5, 9)):
             out.append(spec('c12_tid_tlf_n%d' % n, 'chk_parse_c12', [0x76] + S(n) + [0xAA] + tail, 'transaction-id TLF replaced by %d symbolic bytes (+1 data byte), checksum symbolic' % n))
